@@ -77,7 +77,8 @@ NICE = {"power_usage_effectiveness": (1, 2), "average_carbon_intensity": (20, 50
         "carbon_footprint_fabrication_per_storage_capacity": (10, 300)}
 
 
-def h_driver(ctx, skeleton, kind, target, n=2, args=None):
+def h_driver(ctx, skeleton, kind, target, n=2, args=None, values=None):
+    """values: concrete overrides (e.g. a request lasting more than an hour, whose data is spread over several hours)"""
     spec = M.SKELETONS[skeleton](n, **(args or {}))
     gt = gt_sets(spec)
     param = kind.split(".", 1)[1]
@@ -85,7 +86,7 @@ def h_driver(ctx, skeleton, kind, target, n=2, args=None):
     sym = traffic_syms(spec)
     hi = 24 if param == "fraction_of_usage_time" else 10 ** 6
     sym[slot] = dict(lo=0, lo_strict=True, hi=hi, nice=NICE[param])
-    envA = M.Env(ctx, symbolic=sym)
+    envA = M.Env(ctx, symbolic=sym, values=dict(values or {}))
     k = envA.fresh("k", lo=0, lo_strict=True, hi=1000, nice=(2, 5))
     d = envA.get(slot, None)
     if param == "fraction_of_usage_time":
@@ -256,6 +257,11 @@ def plan(tier, seed):
                              ("device.carbon_footprint_fabrication", "dev2")):
             if same or tier == "thorough" or target == "dev2":
                 p.append(("driver", dict(skeleton="T1d", kind=kind, target=target, n=2, args={"same_names": same})))
+    # requests lasting more than an hour (data spread over several hours), steps longer than an hour
+    long_job = {"job.request_duration": 5400, "job.data_stored": 730}
+    for kind, target in (("job.data_transferred", "job"), ("network.bandwidth_energy_intensity", "net"), ("country.average_carbon_intensity", "fr")):
+        p.append(("driver", dict(skeleton="T1", kind=kind, target=target, n=3, values=long_job)))
+    p.append(("driver", dict(skeleton="T4", kind="job.data_transferred", target="jobB", n=2, values={"step1.user_time_spent": 70, "jobB.request_duration": 7300})))
     # drivers changed in place on a computed system
     for sk, rows in (("T1", ROWS["T1"]), ("T5", ROWS["T5"])):
         for kind, target in rows:
